@@ -11,6 +11,7 @@ from fractions import Fraction as Fr
 from sa.algebra import Und, Rat, rat_of, ONE, PW, ObjV, as_pw
 from sa.core import AnalysisError, unparse, walk_no_nested, const_str
 from . import kin
+from sa.terms import T
 
 LEVEL = "translation_validation"
 EXPLANATION = (
@@ -415,47 +416,122 @@ def _check_defaults(repo, col, spec, chan, syn):
                       node=v)
 
 
-def _norm_change_name(fn: ast.FunctionDef):
-    """Normal form of change_name: which dicts are rewritten and how."""
-    rewrites, sets_name = {}, False
-    for n in walk_no_nested(fn):
-        if isinstance(n, ast.Assign) and len(n.targets) == 1:
-            t = unparse(n.targets[0])
-            if t == "self._name":
-                sets_name = unparse(n.value)
-            elif t.startswith("self.") and isinstance(n.value, ast.DictComp):
-                dc = n.value
-                src = unparse(dc.generators[0].iter)
-                rewrites[t.split(".", 1)[1]] = (unparse(dc.key), unparse(dc.value), src.replace(t, "SELF_DICT"))
-    return rewrites, sets_name
+def _dict_rewrite(repo, fi, ex, t):
+    from . import idx
+    """(key map K, value map V, source dict) of `{K: V for k, v in SRC.items()}` -- written as a dict comprehension or as
+    a helper that fills a fresh dict in a loop over `entries.items()` -- with the iteration key / value replaced by the
+    placeholders KEY / VAL.  None if `t` is not such a rewriting."""
+    from sa.terms import T as _T
+    K = V = it = None
+    if t.op == "dictcomp" and len(t.args) == 3:
+        K, V, it = t.args
+    elif t.op == "call":
+        top = ex
+        ne = top.nested.get(t.name)
+        if ne is None:
+            r = repo.resolve_name(repo.mods[fi.file], t.name)
+            from sa.core import FuncInfo
+            ne = idx.expander(repo, r) if isinstance(r, FuncInfo) else None
+        if ne is None:
+            return None
+        m = idx._bind(ne.fi.node, list(t.args), t.kw)
+        fills = [s_ for s_ in ne.stores if s_.kind == "sub" and s_.base.op in ("dict", "call") and all(g.op == "loop" for g in s_.guards) and s_.guards]
+        if m is None or len(fills) != 1 or len(ne.returns) != 1 or ne.returns[0].key() != fills[0].base.key():
+            return None
+        f_ = fills[0]
+        K, V, it = idx.subst(f_.key, m), idx.subst(f_.value, m), idx.subst(f_.guards[-1].args[0], m)
+    else:
+        return None
+    if not (it.op == "mcall" and it.name == "items"):
+        return None
+    el = _T("elem", None, [it])
+    k0, k1 = _T("item", 0, [el]).key(), _T("item", 1, [el]).key()
+
+    def ph(x):
+        if x.key() == k0:
+            return _T("free", "KEY")
+        if x.key() == k1:
+            return _T("free", "VAL")
+        if not x.args and not x.kw:
+            return x
+        return _T(x.op, x.name, [ph(a_) for a_ in x.args], {k_: ph(v_) for k_, v_ in x.kw.items()}, x.node)
+    return ph(K), ph(V), it.args[0]
+
+
+def _prefix_swap_verdict(K, new_param):
+    """'ok' if K maps  old_name + "_" + rest -> new_name + "_" + rest  and every other key to itself; 'bad' if it is a
+    recognisable different map; None if not recognised."""
+    from sa.terms import canon
+    K = canon(K)
+    is_key = lambda x: x.op == "free" and x.name == "KEY"
+
+    def is_old(x):  # self._name + "_"
+        return x.op == "binop" and x.name == "+" and x.args[0].op == "attr" and x.args[0].name == "_name" and \
+            x.args[1].op == "const" and x.args[1].name == "_"
+
+    def is_new(x):  # new_name + "_"
+        return x.op == "binop" and x.name == "+" and x.args[0].op == "param" and x.args[0].name == new_param and \
+            x.args[1].op == "const" and x.args[1].name == "_"
+    if K.op != "ifexp":
+        return "bad" if is_key(K) or T.find(K, is_key) is not None else None
+    c, a_, b_ = K.args
+    if not (c.op == "mcall" and c.name == "startswith" and len(c.args) == 2 and is_key(c.args[0])):
+        return None
+    if not is_old(c.args[1]):
+        return "bad"
+    rest_ok = False
+    if a_.op == "binop" and a_.name == "+" and is_new(a_.args[0]):
+        r = a_.args[1]
+        rest_ok = (r.op == "sub" and is_key(r.args[0]) and r.args[1].op == "slice" and r.args[1].args[0].op == "call" and
+                   r.args[1].args[0].name == "len" and is_old(r.args[1].args[0].args[0]) and
+                   r.args[1].args[1].op == "const" and r.args[1].args[1].name is None) or \
+                  (r.op == "mcall" and r.name == "removeprefix" and is_key(r.args[0]) and is_old(r.args[1]))
+    elif a_.op == "mcall" and a_.name == "replace" and len(a_.args) == 4 and is_key(a_.args[0]):
+        rest_ok = is_old(a_.args[1]) and is_new(a_.args[2]) and a_.args[3].op == "const" and a_.args[3].name == 1
+    return "ok" if (rest_ok and is_key(b_)) else "bad"
 
 
 def _check_rename(repo, col):
+    from . import idx
     ch = repo.method("Channel", "change_name")
     sy = repo.method("Synapse", "change_name")
+    maps = {}
     for fi, (pa, st) in ((ch, ("channel_params", "channel_states")), (sy, ("synapse_params", "synapse_states"))):
-        rw, sets = _norm_change_name(fi.node)
-        ok_name = sets == fi.params[1] if len(fi.params) > 1 else False
+        ex = idx.expander(repo, fi)
+        newp = fi.params[1] if len(fi.params) > 1 else None
+        sets = [s_ for s_ in ex.stores if s_.kind == "attr" and s_.key.name == "_name" and s_.base.op == "param" and s_.base.name == "self"]
+        ok_name = bool(sets) and all(s_.value.op == "param" and s_.value.name == newp for s_ in sets)
         col.check(bool(ok_name), "R-C04-rename", fi, "self._name = new_name",
                   "_name is updated to the new name", "change_name does not set _name to the new name", node=fi.node)
-        if pa in rw and st in rw:
-            same = rw[pa][:2] == rw[st][:2] and rw[pa][2] == rw[st][2]
+        rw = {}
+        for d in (pa, st):
+            s_ = next((x for x in ex.stores if x.kind == "attr" and x.key.name == d and x.base.op == "param" and x.base.name == "self"), None)
+            rw[d] = _dict_rewrite(repo, fi, ex, s_.value) if s_ is not None else None
+            if s_ is None:
+                col.bad("R-C04-rename", fi, f"{d} rewriting", f"`{d}` is not rewritten by change_name: its keys keep the old prefix", node=fi.node)
+            elif rw[d] is None:
+                derives = T.find(s_.value, lambda x: x.op == "attr" and x.name == d and x.args[0].op == "param" and x.args[0].name == "self") is not None
+                col.add("R-C04-rename", fi, f"{d} rewriting", "UNDECIDED" if derives else "VIOLATED",
+                        f"not a key-by-key rewriting of the dictionary: {s_.value.short(80)}" if derives else
+                        f"the new `{d}` is {s_.value.short(80)}: it is not computed from the old `self.{d}`, so the values the mechanism "
+                        f"carried (defaults changed by the user) are lost by the renaming", node=s_.node)
+        if rw.get(pa) and rw.get(st):
+            (Ka, Va, Sa), (Kb, Vb, Sb) = rw[pa], rw[st]
+            own = lambda S, d: S.op == "attr" and S.name == d and S.args[0].op == "param" and S.args[0].name == "self"
+            same = Ka.key() == Kb.key() and Va.key() == Vb.key() and own(Sa, pa) and own(Sb, st)
             col.check(same, "R-C04-rename", fi, f"{pa} / {st} rewriting",
-                      "both dictionaries are rewritten by the same key map and keep their values",
-                      f"{pa} and {st} are rewritten differently: {rw[pa][:2]} vs {rw[st][:2]}", node=fi.node)
-            keymap, val = rw[pa][0], rw[pa][1]
-            # the key map must be: new_prefix + key[len(old_prefix):] if key.startswith(old_prefix) else key
-            ok = _is_prefix_swap(fi.node)
-            col.check(ok, "R-C04-rename", fi, "key map of change_name",
-                      "old prefix is replaced by the new prefix, other keys are kept",
-                      f"key map `{keymap}` is not a prefix swap that leaves unprefixed keys alone", node=fi.node)
-        else:
-            col.bad("R-C04-rename", fi, f"{pa} / {st} rewriting", "a dictionary is not rewritten by change_name",
-                    node=fi.node)
-    a, _ = _norm_change_name(ch.node)
-    b, _ = _norm_change_name(sy.node)
-    if "channel_params" in a and "synapse_params" in b:
-        col.check(a["channel_params"][:2] == b["synapse_params"][:2], "R-C04-rename", sy, "sibling agreement",
+                      "both dictionaries are rewritten from themselves by the same key map",
+                      f"{pa} and {st} are rewritten differently: {Ka.short(60)} over {Sa.short(30)} vs {Kb.short(60)} over {Sb.short(30)}", node=fi.node)
+            col.check(Va.op == "free" and Va.name == "VAL", "R-C04-rename", fi, "values are carried over unchanged", "value -> value",
+                      f"values are mapped to {Va.short(60)}", node=fi.node)
+            v = _prefix_swap_verdict(Ka, newp)
+            col.add("R-C04-rename", fi, "key map of change_name", {"ok": "DISCHARGED", "bad": "VIOLATED", None: "UNDECIDED"}[v],
+                    "old prefix is replaced by the new prefix, other keys are kept" if v == "ok" else
+                    f"key map `{Ka.short(120)}` is not a prefix swap that leaves unprefixed keys alone", node=fi.node)
+            maps[fi.qual] = Ka
+    if len(maps) == 2:
+        a, b = list(maps.values())
+        col.check(a.key() == b.key(), "R-C04-rename", sy, "sibling agreement",
                   "Channel.change_name and Synapse.change_name use the same key map",
                   "Channel.change_name and Synapse.change_name rename keys differently", node=sy.node)
 
